@@ -11,8 +11,7 @@
      body at pop_loop_and_update_placeholders time.
    - Frame::register_stack only ever holds the temporaries temporary_base .. +temporary_count-1
      (push_register is the only push), so it is represented by temporary_count.
-   - push_jump_back_op has NO range check in the Rust (`offset as u16`): modelled as mod 65536.
-   - `1 + local_count` is u8 arithmetic: 255 locals panic (debug / overflow-checks build). *)
+   - usize subtractions that cannot underflow in the Rust are checked (placeholder resolution). *)
 From Coq Require Import ZArith NArith List Bool.
 From KV.comp Require Import Ast0 Instr0.
 Import ListNotations.
@@ -181,7 +180,10 @@ Fixpoint resolve (endip : N) (c : code) : res code :=
     | Err e => Err e
     | OK r' =>
       match i with
-      | IHole p => if endip - p - 2 <=? 65535 then OK (IJump (endip - p - 2) :: r') else Err CompileError
+      | IHole p =>
+        (* offset = bytes.len() - offset_ip - 2 (usize: cannot underflow), then u16::try_from *)
+        if (p + 2 <=? endip) && (endip - p - 2 <=? 65535) then OK (IJump (endip - p - 2) :: r')
+        else Err CompileError
       | _ => OK (i :: r')
       end
     end
@@ -189,10 +191,11 @@ Fixpoint resolve (endip : N) (c : code) : res code :=
 Definition resolve_m (endip : N) (c : code) : M code :=
   fun st => match resolve endip c with OK c' => OK (c', st, []) | Err e => Err e end.
 
-(* push_jump_back_op: `offset as u16`, unchecked *)
+(* push_jump_back_op: offset = bytes.len() + 3 - target_ip, u16::try_from *)
 Definition jump_back (start : N) : M unit :=
   do here <- get_ip;
-  emit (IJumpBack ((here + 3 - start) mod 65536)).
+  do off <- check_u16 (here + 3 - start);
+  emit (IJumpBack off).
 
 (* ---- constant pool (koto_parser::ConstantPoolBuilder): strings (identifiers) and integers
    outside -255..255, in order of first appearance in the source *)
@@ -514,8 +517,9 @@ Record chunk := mkChunk { ch_bytes : list N; ch_consts : list pentry }.
 
 Definition compile_code (p : program) : res (code * list pentry) :=
   let pool := pool_of p in
-  let lc := local_count p mod 256 in              (* `*local_count as u8` *)
-  if 255 <? 1 + lc then Err CompilePanic else     (* frame.rs: 1 + local_count overflows u8 *)
+  let lc := local_count p in
+  (* u8::try_from(local_count) in compile_node, u8::try_from(1 + local_count) in Frame::new *)
+  if 255 <? 1 + lc then Err CompileError else
   let body :=
     do blk <- comp_block (comp pool) RAny p;
     match o_reg blk with
